@@ -431,8 +431,17 @@ def decode_hex(c, st, addr, want_ptr=False):
         nmax = 8 if not vm.feasible(o.st, z3.UGT(n, 8)) else max(w.heap_lens)
         bs = []
         for k in range(nmax):
+            # byte k is read under the guard "the string is longer than k" (the guard it is used under): a datum
+            # whose heap length is still symbolic on this path has a buffer of 9 OR 10 bytes
+            sk = o.st
+            if not isinstance(ptr, int):
+                sk = o.st.fork()
+                sk.assume(z3.UGT(n, k))
+                if not vm.solver.check(sk.pc, want_model=False)[0]:
+                    bs.append(None)
+                    continue
             try:
-                cells = vm.load_bytes(o.st, ptr + k if not isinstance(ptr, int) else ptr + k, 1)
+                cells = vm.load_bytes(sk, ptr + k, 1)
                 bs.append(cell_term(cells[0]) if cells[0] is not None else None)
             except Terminal:
                 bs.append(None)
